@@ -21,6 +21,11 @@ What is mirrored, statement by statement where it matters:
 * `Route`: parameter kind dispatch; `doRoute`: registered function, else default
   function, else `miss_route_func`; a panicking route function is recovered and
   yields "" (unnamed result of a recovered function).
+* `route.SetDefaultRoute(f)`: the package-level default function can be REPLACED by any route
+  function (`Rules.custom`); `doRoute` calls it for every type without a registered function,
+  under the same deferred `recover` (`Rules.lookup`).
+* the caller's state (`Caller`): a refusal is completed by a DIRECT call of the callback
+  (`CheckInvokeCBFunc`), so it reaches the callback whether or not the caller's scheduler still runs.
 * `RoutePID`, `defaultRoute` (first item of the WORKING list, by name, then the
   name is looked up in the name map), `Request`/`Notify`/`QuerySession`/`Kick`.
 
@@ -252,11 +257,21 @@ def applyBeh : Beh → FParam → Option String
   | .nilor nn _, .nilIface => some nn
   | .nilor _ k, fp => applyKey k "" fp
 
+/-- `table`: `RouteService.routes`; `hasDefault`: the package variable `defaultRouteFunc` holds the
+built-in `app.defaultRoute` (installed by `app` at start-up); `custom`: it holds ANOTHER function
+(`route.SetDefaultRoute(f)`, e.g. a load-balancing default rule) — a route function like any other. -/
 structure Rules where
   table : List (String × Beh)
   hasDefault : Bool
+  custom : Option Beh
 
-def Rules.lookup (R : Rules) (t : String) : Option Beh := R.table.lookup t
+/-- the function `doRoute` ends up calling under its deferred `recover`:
+`f := s.GetFunc(t); if f == nil && defaultRouteFunc != nil { f = defaultRouteFunc }` — the registered
+one, else a replaced default function (`none`: the built-in default or no function at all). -/
+def Rules.lookup (R : Rules) (t : String) : Option Beh := (R.table.lookup t).or R.custom
+
+/-- `route.SetDefaultRoute(f)`: `some b` installs another default function, `none` (= `nil`) removes it -/
+def Rules.setDefault (R : Rules) (b : Option Beh) : Rules := { R with hasDefault := false, custom := b }
 
 /-- `Register(t, f)`; `f = nil` unregisters -/
 def Rules.register (R : Rules) (t : String) (b : Option Beh) : Rules :=
@@ -313,6 +328,28 @@ def routePID (R : Rules) (d : Dir) (t : String) (p : Param) : Option Pid :=
 inductive Cb | noService
   deriving DecidableEq, Repr
 
+/-- the state of the service that issues the call: its run service (scheduler loop) is running, or
+has been stopped (`Service.onStop` → `runService.Stop()`: the actor is shutting down and a late
+response / timer issues a follow-up request) -/
+inductive Caller | running | stopped
+  deriving DecidableEq, Repr
+
+/-- how a completion performed by `app.*` itself reaches the callback: `apientry.CheckInvokeCBFunc`
+calls it `direct`ly, inside the call; `posted` = handed to the caller's scheduler (`ns.Post`) -/
+inductive Via | direct | posted
+  deriving DecidableEq, Repr
+
+/-- does the completion reach the callback?  `sche.Post` on a stopped scheduler recovers the
+"send on closed channel" panic and discards the task. -/
+def delivered : Via → Caller → Bool
+  | .direct, _ => true
+  | .posted, .running => true
+  | .posted, .stopped => false
+
+/-- what the code does today: `CheckInvokeCBFunc(cbFunc, ErrorNoService, nil)` -/
+def completionVia : Via := .direct
+
+
 structure Sent where
   target : Pid
   api : String
@@ -327,6 +364,10 @@ structure Outcome where
   cbs : List Cb
   pending : Bool
   deriving DecidableEq, Repr
+
+/-- an outcome as the caller in state `c` experiences it when completions travel `via` -/
+def Outcome.seenBy (o : Outcome) (via : Via) (c : Caller) : Outcome :=
+  { o with cbs := if delivered via c then o.cbs else [] }
 
 def refused (hasCb : Bool) : Outcome := ⟨[], if hasCb then [.noService] else [], false⟩
 
@@ -344,11 +385,57 @@ def notify (R : Rules) (d : Dir) (r : String) (p : Param) : Outcome :=
   | none => refused false
   | some pid => ⟨[⟨pid, s.2.1 ++ "." ++ s.2.2, false⟩], [], false⟩
 
+/-! ### a call that straddles a view update
+
+`ClusterServices.MakeMembers` swaps the directory's four references with plain stores while calls
+run.  One `Request` reads the directory at up to two points: inside `Route` (only the built-in
+`defaultRoute` does: the WORKING list) and afterwards in `GetServicePID` (the name map).  `d1` is
+the directory seen by the first read, `d2` by the second. -/
+
+def routePIDTorn (R : Rules) (d1 d2 : Dir) (t : String) (p : Param) : Option Pid :=
+  let id := route R d1 t p
+  if id = "" then none else getServicePID d2 id
+
+def requestTorn (R : Rules) (d1 d2 : Dir) (r : String) (p : Param) (hasCb : Bool) : Outcome :=
+  let s := splitClientRoute r
+  match routePIDTorn R d1 d2 s.1 p with
+  | none => refused hasCb
+  | some pid => ⟨[⟨pid, s.2.1 ++ "." ++ s.2.2, true⟩], [], hasCb⟩
+
+def notifyTorn (R : Rules) (d1 d2 : Dir) (r : String) (p : Param) : Outcome :=
+  let s := splitClientRoute r
+  match routePIDTorn R d1 d2 s.1 p with
+  | none => refused false
+  | some pid => ⟨[⟨pid, s.2.1 ++ "." ++ s.2.2, false⟩], [], false⟩
+
+/-- does the function get as far as reading its parameter?  (where the harness functions can be
+parked and a view update be slipped in: `midview`) -/
+def Beh.reads : Beh → FParam → Bool
+  | .key _, _ => true
+  | .keyd _ _, _ => true
+  | .nest _ _ _, _ => true
+  | .nilor _ _, .nilIface => false
+  | .nilor _ _, _ => true
+  | _, _ => false
+
+/-- the call for type `t` with parameter `p` runs a route function that reads its parameter -/
+def straddles (R : Rules) (t : String) (p : Param) : Bool :=
+  match p.viaFunc, R.lookup t with
+  | some fp, some b => b.reads fp
+  | _, _ => false
+
 /-- `app.QuerySession` (`api = "sys.querysession"`) and `app.Kick` (`"sys.kick"`) -/
 def helper (d : Dir) (front : String) (api : String) (hasCb : Bool) : Outcome :=
   match getServicePID d front with
   | none => refused hasCb
   | some pid => ⟨[⟨pid, api, true⟩], [], hasCb⟩
+
+/-- `app.Request` / `app.QuerySession` / `app.Kick` issued by a service in state `c` -/
+def requestIn (c : Caller) (R : Rules) (d : Dir) (r : String) (p : Param) (hasCb : Bool) : Outcome :=
+  (request R d r p hasCb).seenBy completionVia c
+
+def helperIn (c : Caller) (d : Dir) (front : String) (api : String) (hasCb : Bool) : Outcome :=
+  (helper d front api hasCb).seenBy completionVia c
 
 /-- D5, the code before `fix: QuerySession and Kick report ErrorNoService…`:
 log and return, the callback is dropped -/
@@ -363,6 +450,9 @@ inductive Op
   | view (ms : List Member) (sv : List (String × Item))   -- `sv`: the name map the iteration order produced
   | rule (t : String) (b : Option Beh)
   | dropDefault
+  | setDefault (b : Beh)                                  -- `route.SetDefaultRoute(f)` with another function
+  | reqIn (c : Caller) (r : String) (p : Param) (hasCb : Bool)
+  | helperIn (c : Caller) (front : String) (api : String) (hasCb : Bool)
   | req (r : String) (p : Param) (hasCb : Bool)
   | ntf (r : String) (p : Param)
   | qs (front : String) (hasCb : Bool)
@@ -372,12 +462,15 @@ structure St where
   rules : Rules
   dir : Dir
 
-def St.init : St := { rules := ⟨[], true⟩, dir := emptyDir }
+def St.init : St := { rules := ⟨[], true, none⟩, dir := emptyDir }
 
 def step (s : St) : Op → St × Option Outcome
   | .view ms sv => ({ s with dir := ⟨ms, sv⟩ }, none)
   | .rule t b => ({ s with rules := s.rules.register t b }, none)
-  | .dropDefault => ({ s with rules := { s.rules with hasDefault := false } }, none)
+  | .dropDefault => ({ s with rules := s.rules.setDefault none }, none)
+  | .setDefault b => ({ s with rules := s.rules.setDefault (some b) }, none)
+  | .reqIn c r p cb => (s, some (requestIn c s.rules s.dir r p cb))
+  | .helperIn c f api cb => (s, some (helperIn c s.dir f api cb))
   | .req r p cb => (s, some (request s.rules s.dir r p cb))
   | .ntf r p => (s, some (notify s.rules s.dir r p))
   | .qs f cb => (s, some (helper s.dir f "sys.querysession" cb))
